@@ -12,7 +12,7 @@ import (
 func init() {
 	register(&Check{
 		ID: "C10", Level: "exploration", QuickSecs: 150, ThoroughSecs: 1200,
-		Rule:        "same-text family (every ordered pair of 9 terminals equal up to case or spelling - \"ab\"i \"AB\"i \"aB\"i \"ab\" 'ab' [ab]i [BA]i [\\x61] [a] - failing at one or at different offsets: expected lists name each by its own spelling); histories: one action block inside every kind of construct (operand of ! and &, repetition, failing alternative, label, both sides of a recovery operator, called rule, behind a state block, left-recursive rule) x calls {7 inputs x no fault / error / panic(error) / panic(string) x Recover on/off}, EVERY ordered pair of calls in one process on the standard and the optimized parser: the second call answers like a first call; union of families: (a) block-free bodies over the C01 alphabet up to N nodes (quick 4, thorough 5); (b) bodies with actions, code predicates (both results), state blocks and labels up to 3 nodes; (c) state-store bodies over {'a','b',#{},&{}} up to 4 nodes with all three store kinds; (d) fault scripts (error / panic(error) / panic(string) per block, <=2 faulting) under Recover(true) and Recover(false); (e) left-recursive rules (direct, with action and state, indirect) generated with -support-left-recursion. For X in the subsets of {-optimize-basic-latin, -optimize-grammar} (plus -support-left-recursion for (e)): parser(X) vs parser(X + -optimize-parser), real vs real, on all inputs over {a,b} up to L=3: same value, same complete error list (text, order, Inner identity), same escaping panic, same block log; and the optimized static code contains the state machinery iff the grammar has a #{} block. Non-trivial = the case has a code block invocation, an error, or backtracking. Plus the cross family (cross.go, bodies <= 3 nodes, X over {-optimize-basic-latin, -optimize-grammar, -support-left-recursion}, fault scripts - every block in turn returning an error / panicking -, Recover on/off, inputs with invalid bytes) and the two-recovery-operator family of C14.",
+		Rule:        "class range family (every ordered pair of 9 ranges - disjoint, touching, overlapping, nested, equal - in one class, with and without i, positive and inverted, 18 one-rune inputs at the range ends); same-text family (every ordered pair of 9 terminals equal up to case or spelling - \"ab\"i \"AB\"i \"aB\"i \"ab\" 'ab' [ab]i [BA]i [\\x61] [a] - failing at one or at different offsets: expected lists name each by its own spelling); histories: one action block inside every kind of construct (operand of ! and &, repetition, failing alternative, label, both sides of a recovery operator, called rule, behind a state block, left-recursive rule) x calls {7 inputs x no fault / error / panic(error) / panic(string) x Recover on/off}, EVERY ordered pair of calls in one process on the standard and the optimized parser: the second call answers like a first call; union of families: (a) block-free bodies over the C01 alphabet up to N nodes (quick 4, thorough 5); (b) bodies with actions, code predicates (both results), state blocks and labels up to 3 nodes; (c) state-store bodies over {'a','b',#{},&{}} up to 4 nodes with all three store kinds; (d) fault scripts (error / panic(error) / panic(string) per block, <=2 faulting) under Recover(true) and Recover(false); (e) left-recursive rules (direct, with action and state, indirect) generated with -support-left-recursion. For X in the subsets of {-optimize-basic-latin, -optimize-grammar} (plus -support-left-recursion for (e)): parser(X) vs parser(X + -optimize-parser), real vs real, on all inputs over {a,b} up to L=3: same value, same complete error list (text, order, Inner identity), same escaping panic, same block log; and the optimized static code contains the state machinery iff the grammar has a #{} block. Non-trivial = the case has a code block invocation, an error, or backtracking. Plus the cross family (cross.go, bodies <= 3 nodes, X over {-optimize-basic-latin, -optimize-grammar, -support-left-recursion}, fault scripts - every block in turn returning an error / panicking -, Recover on/off, inputs with invalid bytes) and the two-recovery-operator family of C14.",
 		Assumptions: []string{"E1 loader", "both sides are the real builder + runtime; the reference is consulted only to count non-trivial cases"},
 		Run:         runC10,
 	})
@@ -148,6 +148,28 @@ func runC10(c *ShardCtx) {
 				}
 				g := wrap(peg.Seq(peg.Choice(peg.Seq(t1(), peg.Lit("x")), peg.Seq(peg.Lit("x"), t2())), peg.Opt(t2()), peg.Not(peg.Any())))
 				diff(g, xs, def, nil)
+			}
+		}
+		inputs = saved
+	}
+	// class ranges in every relation to each other (disjoint, touching, overlapping, nested either way,
+	// equal, in both orders, case-insensitive images that nest): what the emitted ranges accept
+	{
+		rs := []string{"a-z", "d-f", "a-f", "f-z", "g-k", "e-g", "d-d", "A-F", "@-Z"}
+		saved := inputs
+		inputs = nil
+		for _, r := range "`acdefghkyz{@AFGZ[" {
+			inputs = append(inputs, []byte(string(r)))
+		}
+		for _, x := range rs {
+			for _, y := range rs {
+				for _, ic := range []bool{false, true} {
+					if c.Expired("class range family") {
+						return
+					}
+					g := wrap(peg.Seq(peg.Cls(false, ic, x, y), peg.Opt(peg.Cls(true, ic, y, x)), peg.Not(peg.Any())))
+					diff(g, xs, def, nil)
+				}
 			}
 		}
 		inputs = saved
